@@ -2,7 +2,7 @@
    never tried the last position, the code as found accepted negative positions; rejection of
    overlapping / overflowing explicit definitions. *)
 From Coq Require Import ZArith List Bool Lia.
-Require Import Rig.Model.Base Rig.Model.BitField Rig.Spec.BitField.
+Require Import Rig.Generated.GenBitField Rig.Model.Base Rig.Model.BitField Rig.Spec.BitField.
 Require Import Rig.Proofs.BitFieldBits Rig.Proofs.BitFieldTree Rig.Proofs.BitFieldAssign
                Rig.Proofs.BitFieldAdd.
 Import ListNotations.
@@ -136,7 +136,7 @@ Lemma add_field_rejects_overflow st fv i len s tags :
   s < 0 \/ s_len st <= s \/ s_len st < s + len_or1 len ->
   add_field st fv i len (Some s) tags = (st, Some E_VALUE).
 Proof.
-  intros H. unfold add_field, add_field_gen.
+  intros H. unfold add_field, gen_range_orig, add_field_gen.
   destruct (match len with Some l => l <=? 0 | None => false end); [reflexivity|].
   assert (E : range_bad false (s_len st) s len = true).
   { unfold range_bad. apply orb_true_iff.
@@ -155,7 +155,7 @@ Lemma add_field_rejects_overlap st fv i len s tags oi ofid os :
   os < s + len_or1 len -> s < os + len_or1 (f_len (sget (s_store st) ofid)) ->
   add_field st fv i len (Some s) tags = (st, Some E_VALUE).
 Proof.
-  intros Hin Hs H1 H2. unfold add_field, add_field_gen.
+  intros Hin Hs H1 H2. unfold add_field, gen_range_orig, add_field_gen.
   destruct (match len with Some l => l <=? 0 | None => false end); [reflexivity|].
   destruct (range_bad false (s_len st) s len); [reflexivity|].
   match goal with |- (if ?c then _ else _) = _ => assert (E : c = true) end.
@@ -168,5 +168,5 @@ Qed.
 Lemma add_field_rejects_length st fv i l start tags :
   l <= 0 -> add_field st fv i (Some l) start tags = (st, Some E_VALUE).
 Proof.
-  intros H. unfold add_field, add_field_gen. destruct (Z.leb_spec l 0); [reflexivity|lia].
+  intros H. unfold add_field, gen_range_orig, add_field_gen. destruct (Z.leb_spec l 0); [reflexivity|lia].
 Qed.
